@@ -9,12 +9,23 @@ import (
 	vestingtypes "github.com/cosmos/cosmos-sdk/x/auth/vesting/types"
 )
 
-// CheckIfAccountIsSuitableForDestroying checking the account is suitable for destroy (EVM) or not.
+// CheckIfAccountIsSuitableForDestroying checking the account is suitable for destroy (EVM) or not,
+// the vesting expiry is tested against the wall clock of the machine.
+//
+// Deprecated: the result depends on the wall clock so it must not be used in the state machine,
+// use CheckIfAccountIsSuitableForDestroyingAt with the block time instead.
+func CheckIfAccountIsSuitableForDestroying(account sdk.AccountI) (destroyable bool, reason string) {
+	return CheckIfAccountIsSuitableForDestroyingAt(account, time.Now().UTC())
+}
+
+// CheckIfAccountIsSuitableForDestroyingAt checking the account is suitable for destroy (EVM) or not, as of the given time.
+// Consensus code must pass the block time.
 //
 // It returns false and the reason if the account:
 //  1. Is a module account.
 //  2. Is a vesting account which still not expired.
-func CheckIfAccountIsSuitableForDestroying(account sdk.AccountI) (destroyable bool, reason string) {
+//  3. Is a permanent locked account (which never expires).
+func CheckIfAccountIsSuitableForDestroyingAt(account sdk.AccountI, atTime time.Time) (destroyable bool, reason string) {
 	if account == nil || reflect.ValueOf(account).IsNil() {
 		panic("account is nil")
 	}
@@ -24,15 +35,21 @@ func CheckIfAccountIsSuitableForDestroying(account sdk.AccountI) (destroyable bo
 		return
 	}
 
+	if _, isPermanentLockedAcc := account.(*vestingtypes.PermanentLockedAccount); isPermanentLockedAcc {
+		// coins of this type of account never vest, the end time is always zero
+		reason = "permanent locked account is not suitable for destroying"
+		return
+	}
+
 	if vestingAcc, ok := account.(*vestingtypes.BaseVestingAccount); ok {
-		if vestingAcc.GetEndTime() > time.Now().UTC().Unix() {
+		if vestingAcc.GetEndTime() > atTime.Unix() {
 			reason = "unexpired vesting account is not suitable for destroying"
 			return
 		}
 	}
 
 	if vestingAcc, ok := account.(vesting.VestingAccount); ok {
-		if vestingAcc.GetEndTime() > time.Now().UTC().Unix() {
+		if vestingAcc.GetEndTime() > atTime.Unix() {
 			reason = "unexpired vesting account is not suitable for destroying"
 			return
 		}
